@@ -374,7 +374,8 @@ class C16(Profile):
 
 
 # ==================================================================================================
-LABELS = ["m1", "record one", " leading space", "trailing space ", "", "a,b,c", "#hash first", "x # y",
+LABELS = ["m1", "record one", " leading space", "trailing space ", "", "a,b,c", "#hash first", "x # y", "12", "-1.5",
+          "nan", "3 0.0100", "# 5 0.01", "1,2,3", "label, with comma 0.5", "m1 ", "  ", "inf", "1e5", "0",
           "1000 0.0100", "East-West (EW) comp.", "0.5"]
 DTS_EXACT = [0.0001, 0.001, 0.002, 0.005, 0.01, 0.01, 0.02, 0.025, 0.05, 0.1, 0.5, 0.9999]
 DTS_ROUND = [0.00015, 0.00123456, 0.0100004, 0.99996, 0.019999, 0.3333333]
@@ -489,8 +490,9 @@ class Gen(object):
         elif c < 0.75:
             vals = [float(rng.randint(-10 ** 6, 10 ** 6)) for _ in range(n)]
         elif c < 0.85:
-            vals = [rng.choice([0.0, 0.0, 1e-7, -1e-7, 4.9999995e-7, 5.0000005e-7, -0.0000005, 123456.7890125, 1e12, -1e12,
-                                0.1234565, 2.5e-7]) for _ in range(n)]
+            vals = [rng.choice([0.0, 0.0, -0.0, 1e-7, -1e-7, 4.9999995e-7, 5.0000005e-7, -0.0000005, 123456.7890125, 1e12, -1e12,
+                                0.1234565, 2.5e-7, 0.0000015, -0.0000025, 1.0, -1.0, 10.0, -200.0, 999999.9999995, 0.9999995,
+                                1e-6, -1e-6, 99999.5, 1e6, 123456789012.0]) for _ in range(n)]
         else:
             vals = [rng.uniform(-1, 1) * 10 ** rng.randint(-3, 6) for _ in range(n)]
         kind = "f8"
